@@ -21,6 +21,9 @@ type SolverCfg struct {
 }
 
 var solvers = []SolverCfg{
+	{Name: "z3-new-5.1.0-ematch", Cmd: func(f string, ms int) []string {
+		return []string{"z3-new", "-smt2", fmt.Sprintf("-t:%d", ms), "smt.mbqi=false", f}
+	}},
 	{Name: "z3-new-5.1.0", Cmd: func(f string, ms int) []string {
 		return []string{"z3-new", "-smt2", fmt.Sprintf("-t:%d", ms), f}
 	}},
@@ -136,8 +139,7 @@ func solvePath(ps *PathScript, workDir string, perQueryMs int, onlySolver string
 		if !pending() {
 			break
 		}
-		file := base + "." + strings.SplitN(sv.Name, "-", 2)[0] + sv.Name[len(sv.Name)-3:] + ".smt2"
-		file = strings.ReplaceAll(file, "..", ".")
+		file := base + "." + sv.Name + ".smt2"
 		if err := os.WriteFile(file, []byte(sv.Pre+ps.Script), 0o644); err != nil {
 			continue
 		}
